@@ -18,6 +18,13 @@ def step (s : St) (line : String) : St × String :=
   | some "ident" | some "proto" =>
     let s1 := RTM.step s (.identified (kv "p").toNat! (kv "proto" == "1") (kv "filt" == "1"))
     (s1, s!"{showRt s1} {showProbing s1}")
+  | some "fixlow" =>
+    -- `fixLowPeers`: while the table is small every connected peer is handed to `peerFound`, which starts an admission
+    -- probe for those that advertise the protocol and pass the filter and are not members yet — the step an
+    -- identification of such a peer takes; the others are left alone
+    let valid := let t := kv "valid"; if t == "" then [] else (t.splitOn ",").map String.toNat!
+    let s1 := if s.rt.length > 10 then s else valid.foldl (fun st p => RTM.step st (.identified p true true)) s
+    (s1, s!"{showRt s1} {showProbing s1}")
   | some "probe" =>
     let p := (kv "p").toNat!
     if !s.probing.contains p then (s, showRt s ++ " noprobe") else
